@@ -1,4 +1,5 @@
 import Mieru.Proofs.Arq
+import Mieru.Proofs.SegTree
 import Mieru.Gen.Facts
 import Mieru.Gen.UdpFacts
 /-!
@@ -137,6 +138,75 @@ theorem retransmission_reuses_stored_segment :
       [("Session.runOutputOnceStream", "seg"), ("Session.runOutputOncePacket", "iter"),
        ("Session.runOutputOncePacket", "seg"), ("Session.runOutputOncePacket", "ackSeg"),
        ("Session.inputClose", "seg2"), ("Session.closeWithError", "seg")] := by decide
+
+/-! ## The container: `segmentTree` (`Mieru.Model.SegTree`, tied to the real tree op by op in harness/props/c13_tree.go)
+
+sendBuf, sendQueue, recvBuf and recvQueue are `segmentTree`s. The statements above are about the abstract
+interval `[lo, qLo)`; the ones below are about the container the code manipulates. -/
+
+/-- Every operation keeps the tree sorted by strictly increasing sequence number (so no sequence number
+    occurs twice) and within its capacity. -/
+theorem segtree_invariant {α : Type} (t : SegTree.T α) (h : SegTree.WF t) (k a : Nat) (v : α) (p : Nat × α → Bool) :
+    SegTree.WF (SegTree.insert t k v).1 ∧ SegTree.WF (SegTree.deleteMin t).1 ∧ SegTree.WF (SegTree.deleteMinIf t p).1 ∧
+    SegTree.WF (SegTree.deleteAll t) ∧ SegTree.WF (SegTree.discardBelow t a) ∧ SegTree.WF (SegTree.empty t.cap : SegTree.T α) :=
+  ⟨SegTree.insert_wf t k v h, SegTree.deleteMin_wf t h, SegTree.deleteMinIf_wf t p h, SegTree.deleteAll_wf t,
+   SegTree.discardBelow_wf t a h, SegTree.empty_wf _⟩
+
+/-- `Insert` = `ReplaceOrInsert` below the capacity: it fails exactly when the tree is full (even if the
+    sequence number is already there); otherwise the new entry is in, the entry that had the same
+    sequence number is out, and every other entry is untouched. -/
+theorem segtree_insert_spec {α : Type} (t : SegTree.T α) (h : SegTree.WF t) (k : Nat) (v : α) :
+    ((SegTree.insert t k v).2 = false ↔ t.cap ≤ t.items.length) ∧
+    ((SegTree.insert t k v).2 = true → ∀ x, x ∈ (SegTree.insert t k v).1.items ↔ x = (k, v) ∨ (x ∈ t.items ∧ x.1 ≠ k)) := by
+  unfold SegTree.insert
+  split
+  · rename_i hc; exact ⟨⟨fun _ => hc, fun _ => rfl⟩, fun hf => by cases hf⟩
+  · rename_i hc
+    refine ⟨⟨fun hf => (by cases hf), fun hc' => absurd hc' hc⟩, fun _ x => ?_⟩
+    exact SegTree.mem_insertSorted k v t.items h.1 x
+
+/-- Discard only what was acknowledged, over the container: the loop `DeleteMinIf(seq < unAckSeq)` until
+    nothing is deleted (as `inputAck` / `inputData` run it) removes exactly the entries with
+    `seq < unAckSeq` and keeps every entry with `seq ≥ unAckSeq` — in particular the segment the peer is
+    still waiting for. -/
+theorem discard_only_acked_container {α : Type} (t : SegTree.T α) (h : SegTree.WF t) (a : Nat) :
+    SegTree.discardLoop a (t.items.length + 1) t = SegTree.discardBelow t a ∧
+    ∀ x, x ∈ (SegTree.discardBelow t a).items ↔ x ∈ t.items ∧ a ≤ x.1 :=
+  ⟨SegTree.discardLoop_eq a _ t (Nat.lt_succ_self _), fun x => SegTree.mem_dropWhile_lt a t.items h.1 x⟩
+
+/-- … and it is the abstract step: when sendBuf holds the sequence numbers `[lo, qLo)`, after the loop it
+    holds `[max lo (min a qLo), qLo)` — `Arq.Step.recvAck`'s `lo := max lo (min a qLo)`. -/
+theorem sendbuf_discard_is_recvAck {α : Type} (t : SegTree.T α) (lo qLo a : Nat) (hle : lo ≤ qLo)
+    (hk : t.items.map (·.1) = List.range' lo (qLo - lo)) :
+    (SegTree.discardBelow t a).items.map (·.1) =
+      List.range' (max lo (min a qLo)) (qLo - max lo (min a qLo)) := by
+  unfold SegTree.discardBelow
+  simp only
+  rw [SegTree.map_fst_dropWhile, hk, SegTree.dropWhile_range']
+  have : lo + (qLo - lo) = qLo := by omega
+  rw [this]
+
+/-- Release only the segment numbered `nextRecv`, over the container: on a recvBuf without stale entries
+    `DeleteMinIf(seq ≤ nextRecv)` deletes iff the segment numbered `nextRecv` is buffered, what it hands over
+    is that segment, and everything left is numbered above it. -/
+theorem release_only_next_container {α : Type} (t : SegTree.T α) (h : SegTree.WF t) (n : Nat)
+    (hs : ∀ x ∈ t.items, n ≤ x.1) :
+    ((SegTree.deleteMinIf t (fun x => decide (x.1 ≤ n))).2.2 = true ↔ ∃ x ∈ t.items, x.1 = n) ∧
+    (∀ x, (SegTree.deleteMinIf t (fun x => decide (x.1 ≤ n))).2 = (some x, true) →
+      x.1 = n ∧ ∀ y ∈ (SegTree.deleteMinIf t (fun x => decide (x.1 ≤ n))).1.items, n < y.1) :=
+  SegTree.release_step t n h hs
+
+/-- `DeleteMin` hands over the entry with the smallest sequence number: sendQueue is transmitted, and
+    recvQueue is read, in sequence order. -/
+theorem segtree_deleteMin_is_minimum {α : Type} (t : SegTree.T α) (h : SegTree.WF t) (x : Nat × α)
+    (hx : (SegTree.deleteMin t).2 = some x) :
+    t.items = x :: (SegTree.deleteMin t).1.items ∧ ∀ y ∈ (SegTree.deleteMin t).1.items, x.1 < y.1 :=
+  SegTree.deleteMin_spec t h x hx
+
+example : (SegTree.insert (SegTree.insert (SegTree.insert (SegTree.empty 2) 5 'a').1 3 'b').1 3 'c').2 = false := by decide
+example : (SegTree.discardBelow (⟨8, [(4, 0), (5, 0), (6, 0), (7, 0)]⟩ : SegTree.T Nat) 6).items = [(6, 0), (7, 0)] := by decide
+example : SegTree.WF (⟨8, [(4, 0), (5, 0), (6, 0), (7, 0)]⟩ : SegTree.T Nat) := by
+  refine ⟨?_, by decide⟩; simp [List.pairwise_cons]
 
 /-! ## Non-vacuity -/
 example : ∃ s, Reach 4 s ∧ s.acked = [1] ∧ s.sent.length = 2 := by
